@@ -35,39 +35,36 @@ example : burstOk 5 0 [.enter 2, .pushU 3, .pushC 1, .pushU 5, .pop 4, .enter 0,
 /-- the witness script violates the side condition of the partial theorem -/
 example : burstOk 5 0 (stackprogOps 41 23 0) = false := by decide
 
-/-! ## the logical bound `off < size` is false for F_INDEX on buffers -/
+/-! ## signed overflow (C undefined behaviour) in reverse-index arithmetic
 
-def index_logical_bound_buf_Full : Prop :=
-  ∀ (size n : Int) (out : Out), 0 ≤ size → opIndex .buf size n = .ok out → ∀ a ∈ out.acc, a.off < size
-
-/-- `b[sizeof(b)]` is accepted (`i > size` instead of `>=`); the byte lies in the tail padding of `buffer_t`, so
-    `index_access_in_bounds` still holds - semantic finding (C03), logical-bound witness here -/
-theorem index_logical_bound_buf_false : ¬ index_logical_bound_buf_Full := by
-  intro h
-  have := h 5 5 ⟨[rd .owner 5 1], .elem 5⟩ (by decide) rfl (rd .owner 5 1) (by simp)
-  simp [rd] at this
-
-/-! ## signed overflow (C undefined behaviour) in reverse-index arithmetic -/
+Repaired meanwhile (positive theorems): F_RINDEX on arrays (`rindex_arr_no_ub`), push_lvalue_range
+(`lrangeBounds_no_ub`), and the buffer index `>=` (`index_logical_bound_buf`).  Still open: `size - ind` in
+push_indexed_lvalue (arrays, buffers; both halves) and `len - to` / `len - from` in f_range / f_extract_range. -/
 
 /-- full statement: the index arithmetic of the modelled opcodes never leaves the range of its C type -/
 def index_arith_defined_Full : Prop :=
   ∀ (k : Kind) (size n : Int), 0 ≤ size → size ≤ 65535 → inS64 n = true →
-    ∀ s, opRindex k size n ≠ .error (.ub s) ∧ opLindex k true false size n 81 ≠ .error (.ub s)
+    ∀ s, opLindex k true false size n 81 ≠ .error (.ub s) ∧ opErange {} k true size n ≠ .error (.ub s)
 
 theorem index_arith_defined_false : ¬ index_arith_defined_Full := by
   intro h
-  exact (h .arr 5 (-2147483648) (by decide) (by decide) (by decide) "rindex_arr").1 rfl
+  exact (h .arr 5 (-9223372036854775808) (by decide) (by decide) (by decide) "lindex_arr").1 rfl
 
 /-- `a[<(-2^63)] = v`: `size - ind` overflows int64_t -/
 example : opLindex .arr true false 5 (-9223372036854775808) 81 = .error (.ub "lindex_arr") := rfl
-/-- `s[0..2147483647] = x`: `++ind2` overflows int -/
-example : opLrange {} .str false false 5 0 2147483647 0 = .error (.ub "lrange_ind2_inc") := rfl
+/-- `s[<(-2^63)..]`: `len - from` overflows int64_t -/
+example : opErange {} .str true 5 (-9223372036854775808) = .error (.ub "erange_str_from") := rfl
+/-- `s[0..2147483647] = x` is now rejected by the 64-bit pre-check (was: `++ind2` overflows int) -/
+example : opLrange {} .str false false 5 0 2147483647 0 = .error (.lpc msg_lrange_ind2_pre) := rfl
+/-- `a[<(-2^31)]` is now rejected by the guard (was: `size - (int)n` overflows int) -/
+example : opRindex .arr 5 (-2147483648) = .error (.lpc msg_rindex_arr) := rfl
 
 /-! ## non-vacuity of the bound theorems -/
 
 example : ∃ out, opIndex .arr 5 4 = .ok out := ⟨_, rfl⟩
 example : opIndex .arr 5 5 = .error (.lpc msg_index_arr) := rfl
-example : opIndex .arr 5 4294967296 = .ok ⟨[rd .owner 0 1], .elem 0⟩ := rfl      -- (int) truncation: a[2^32] is a[0]
+example : opIndex .arr 5 4294967296 = .error (.lpc msg_index_arr) := rfl      -- no (int) truncation any more
+example : opIndex .buf 5 5 = .error (.lpc msg_index_buf) := rfl               -- b[sizeof(b)] is rejected now
 example : ∃ out, opRange {} .str false true 10 2 3 = .ok out := ⟨_, rfl⟩
 example : ∃ out, opLrange {} .buf false false 5 1 2 4 = .ok out ∧ out.acc.length = 6 := ⟨_, rfl, rfl⟩
 example : errorTouches 16405 97 = [8189, 8190, 8191] := by decide
